@@ -760,7 +760,7 @@ class RF24:
 
     @crc.setter
     def crc(self, length: int):
-        length = min(2, abs(int(length)))
+        length = max(0, min(2, int(length)))
         length = (length + 1) << 2 if length else 0
         self._config = self._config & 0x73 | length
         self._reg_write(CONFIGURE, self._config)
